@@ -408,6 +408,8 @@ class Facts:
                         v = self.inlined(h, light=False)
                         covered |= set(v.j.get("inlined") or [])
                         views.append(v)
+            # a body that some caller's view already contains (a conversion impl written for the caller) is not a unit of its own
+            views = [v for v in views if not (v.kind in ("fn", "method") and v.name in covered and v.j.get("trait"))]
             self.__dict__["_host_units"] = views
         return self.__dict__["_host_units"]
 
@@ -415,7 +417,9 @@ class Facts:
         """the functions a body belongs to for who-may-do-what rules: itself, unless it is a private helper (extract-method) -
         then the functions that call it, transitively; a closure belongs to the function it is written in"""
         root = self.fns.get(fn.j.get("root")) or fn
-        if not is_private_helper(root) or _depth > 4:
+        conv = (root.j.get("trait") or "").split("<")[0] in ("std::convert::From", "std::convert::TryFrom", "std::default::Default") \
+            and (root.j.get("self_ty") or "").split("<")[0] in self.adt_by_name
+        if not (is_private_helper(root) or conv) or _depth > 4:
             return {root.name}
         out = set()
         for cid in self.callers_of(root.id):
@@ -698,15 +702,20 @@ def inline_private_helpers(F, fn, depth=2, max_blocks=4000, light=True, also_typ
             if g is None or not g.blocks or g.id == fn.id or g.kind not in ("method", "fn"):
                 continue
             g_ty = (g.j.get("self_ty") or "").split("<")[0]
-            if g.j.get("trait") or g.j.get("in_trait") or g.id in getattr(F, "_anchor_ids", ()):
+            # a conversion impl (`impl From<TxED> for WaitingTx`) written in the caller's file for a type of that file is a
+            # constructor helper in trait clothing; the call is statically resolved to it
+            conv_impl = (g.j.get("trait") or "").split("<")[0] in ("std::convert::From", "std::convert::TryFrom", "std::default::Default") \
+                and g.loc.get("f") == fn.loc.get("f") and g_ty in F.adt_by_name and g_ty not in heavy_types(F) \
+                and (F.adt_by_name[g_ty].get("loc") or {}).get("f", g.loc.get("f")) == g.loc.get("f")
+            if (g.j.get("trait") and not conv_impl) or g.j.get("in_trait") or g.id in getattr(F, "_anchor_ids", ()):
                 continue
-            if (g.j.get("method") or g.name.split("::")[-1]) in anchors and g_ty not in also_types and g.id not in also_types:
+            if (g.j.get("method") or g.name.split("::")[-1]) in anchors and g_ty not in also_types and g.id not in also_types and not conv_impl:
                 continue        # (a name some rule looks for stays a call - except on a type / function the caller asked to open up)
             same_type = g_ty == base_ty
             # a non-public function or method written in the same file as its caller (module privacy: only this module can call
             # it) - a free helper, or a private method put on another type of the module (`ConfigDatabase::record_creation_config`)
             same_file_free_fn = g.loc.get("f") == fn.loc.get("f")
-            private_helper = (same_type or same_file_free_fn) and (g.j.get("vis") or "") != "Public"
+            private_helper = ((same_type or same_file_free_fn) and (g.j.get("vis") or "") != "Public") or conv_impl
             # methods of small record types (not the engine, the database struct or a table type), whatever their visibility:
             # logic moved onto the record it concerns (`info.require_next_tx(..)`) is still the caller's logic
             light_method = (light or g_ty in also_types) and bool(g_ty) and g_ty not in heavy_types(F) and len(g.blocks) <= 120
